@@ -54,6 +54,7 @@ func runC02Random(t *testing.T, id string, scSeed, hSeed int64) {
 	}
 	defer r.close()
 	r.w.caseID = id
+	r.w.noViewMonitor = true // an outside writer acts behind a stale cache: the view is stale by construction
 	defer r.w.flushCounters("C02")
 	s := r.w.sim
 	hrng := rand.New(rand.NewSource(hSeed))
